@@ -154,6 +154,8 @@ func checkC14(r *Run) {
 	}
 	r.Floor("unbound-reads-nil", tsOwn.releaseSites, 3, "release events interpreted")
 	publishLocked(r, fns, "publish-locked")
+	// results match a sequential order only if a fid is looked up and unbound in one atomic step
+	c08TableAccess(r, p, tsOwn)
 	// E7a obligations
 	akeys := []string{}
 	for k := range ts.acc {
